@@ -746,7 +746,17 @@ def _search(run, broken):
 
 
 def replay(run, rp):
+    """every case of a run is written to the SAME path and read in the same process, so a failure may depend on the history
+    (state kept by the reader between calls); the replay therefore reads two other generated files at that path first"""
+    import random as _random
     try:
+        pre = _random.Random("c01-replay-history")
+        seen = set()
+        for _ in range(60):          # at least two other files of each dimension, read through the same path first
+            h = gen_case(pre)
+            if sum(1 for x in seen if x[0] == h["nd"]) < 2:
+                seen.add((h["nd"], len(seen)))
+                failing(h)
         if "case" in rp:
             return failing(rp["case"]) is not None
         return any(failing(c) is not None for c in rp.get("cases", []))
